@@ -276,6 +276,17 @@ Fixpoint lines_max (pts : list (Q * Q)) (x : Q) (acc : option Q) : option Q :=
         lines_max t x (match acc with Some a => Some (qmax a v) | None => Some v end)
   | _ => acc
   end.
+(* makeAy.py:59-76 — the "basin" constraints of one cost-variable row: for every segment (p_i,c_i)-(p_i+1,c_i+1)
+   the pair (m, b) of   m * Pg - Y <= b ,  m = (c_i+1 - c_i) / (p_i+1 - p_i) ,  b = m * p_i - c_i
+   (in MW units: makeAy divides the breakpoints by baseMVA, its slope is m * baseMVA on Pg in p.u.) *)
+Fixpoint segs {A B : Type} (f : A -> A -> B) (P : list A) : list B :=
+  match P with a :: ((b :: _) as t) => f a b :: segs f t | _ => [] end.
+Definition ay_seg (a b : Q * Q) : Q * Q :=
+  let m := qdiv (qsub (snd b) (snd a)) (qsub (fst b) (fst a)) in (m, qsub (qmul m (fst a)) (snd a)).
+Definition ay_rows (r : grow) : list (Q * Q) := segs ay_seg (pwl_points r).
+(* a value y of the cost variable satisfies the row's constraints at the generator variable x *)
+Definition ay_feasible (r : grow) (x y : Q) : Prop := Forall (fun mb => fst mb * x - y <= snd mb) (ay_rows r).
+
 Definition obj_row (r : grow) (x : Q) : option Q :=
   if Z.eqb (g_model r) 2 then Some (polycost r x)
   else if Z.eqb (g_model r) 1 then
@@ -333,11 +344,26 @@ Fixpoint same_slopes (pts : list (Q * Q * Q)) : bool :=
   | _ => true
   end.
 Definition G17pwl (t : etype) (pts : list (Q * Q * Q)) : bool := negb (is_neg_et t) || same_slopes pts.
+(* convexity of the user's function: slopes do not decrease from area to area *)
+Fixpoint nondecr_slopes (pts : list (Q * Q * Q)) : bool :=
+  match pts with
+  | (_, _, s1) :: (((_, _, s2) :: _) as t) => qleb s1 s2 && nondecr_slopes t
+  | _ => true
+  end.
 Fixpoint consecutive (pts : list (Q * Q * Q)) : bool :=
   match pts with
   | (l1, u1, _) :: (((l2, _, _) :: _) as t) => qltb l1 u1 && qeqb u1 l2 && consecutive t
   | [(l1, u1, _)] => qltb l1 u1
   | [] => true
+  end.
+
+Definition convex_areas (pts : list (Q * Q * Q)) : bool := consecutive pts && nondecr_slopes pts.
+
+(* _get_gen_index before the repair of the -1 lookup value: the value was used as it is (numpy row -1 = last row) *)
+Definition get_gen_index_wrap_old (e : env) (t : etype) (el : Z) : res (option Z) :=
+  match t with
+  | Dcline => get_gen_index e t el
+  | _ => Ok (lookup_get (lookup_of e t) el)
   end.
 
 (* ---------------------------------------------------------------- output *)
@@ -352,6 +378,25 @@ Definition run_make (e : env) (cs : list pcost) (ws : list wcost) (pmin pmax : l
                  OL (map (fun rx => ooq (totcost (fst rx) (snd rx))) (combine m xs));
                  ooq (objective (ng e) (if dc then firstn (ng e) m else m) xs) ]
   end.
+
+(* the cost-variable constraints makeAy builds from the gencost: for every row that keeps MODEL = PW_LINEAR after the
+   single-block conversion (NCOST > 2): row number, the variable (column of [Pg; Qg]) it is stamped on, its (m, b) pairs *)
+Fixpoint ay_go (ngn : nat) (i : nat) (m : gencost) : list out :=
+  match m with
+  | [] => []
+  | r :: mt =>
+      (if is_ccv r then [OL [onat i; onat (var_index ngn i r); olist (fun mb => OL [oq (fst mb); oq (snd mb)]) (ay_rows r)]] else [])
+      ++ ay_go ngn (S i) mt
+  end.
+Definition run_ay (e : env) (cs : list pcost) (ws : list wcost) (pmin pmax : list Q) (dc : bool) : out :=
+  match make_objective e cs ws pmin pmax with
+  | Raise s => OErr s
+  | Ok m => OL (ay_go (ng e) 0 (if dc then firstn (ng e) m else m))
+  end.
+
+(* what _get_gen_index returns for a list of (kind, index label) cost keys: a row, None, or the error it raises *)
+Definition run_rows (e : env) (keys : list (etype * Z)) : out :=
+  OL (map (fun te => match get_gen_index e (fst te) (snd te) with Ok o => oopt OZ o | Raise s => OErr s end) keys).
 
 (* the row one pwl entry produces (NCOST and cells written by _fill_gencost_pwl on a wide enough matrix) *)
 Definition pwl_row (t : etype) (pts : list (Q * Q * Q)) : res grow :=
